@@ -54,6 +54,9 @@ type Cfg struct {
 type Prog struct {
 	Tasks []Task `json:"tasks"`
 	Cfg   Cfg    `json:"cfg"`
+	// scheduler step budget of a run (0 = default); cyclic programs get a budget of a few times
+	// what MaximumTaskCall calls can print, so a cycle the call limit no longer ends is noticed
+	maxSteps int
 }
 
 func okGuards() Guards { return Guards{Platform: true, Required: true, Enum: true} }
@@ -538,7 +541,19 @@ func Directed(r *rand.Rand) *Prog {
 	code := []int{1, 2, 7, 126, 255}[r.Intn(5)]
 	dedup := []string{"once", "when_changed"}[r.Intn(2)]
 	p := &Prog{}
-	switch r.Intn(8) {
+	switch r.Intn(9) {
+	case 8: // a called task's dep fails while a sibling dep (with deferred commands) is still busy: the
+		// caller ignores the error but must not move on before the sibling went quiet (errgroup.Wait)
+		p.Tasks = []Task{
+			tk("always", nil, sh(0), callv(1, nil), sh(0), sh(0)),
+			tk("always", []Call{{Task: 2}, {Task: 3}}, sh(0)),
+			tk("always", nil, sh(code)),
+			tk("always", nil, Cmd{Kind: "dshell"}, sh(0), sh(0), sh(0)),
+		}
+		p.Tasks[0].Ignore = true
+		if r.Intn(2) == 0 {
+			p.Tasks[1].Deps = []Call{{Task: 3}, {Task: 2}, {Task: 3}}
+		}
 	case 0: // a task with defers is cancelled by a failing sibling while it runs
 		p.Tasks = []Task{
 			tk("always", []Call{{Task: 1}, {Task: 2}}, sh(0)),
